@@ -1,5 +1,5 @@
 (* C19 -- property theorems only; each closed by `exact` and followed by Print Assumptions. *)
-Require Import SF.Prelude SF.PySlice SF.Value SF.Quilt SF.BatchView Proofs.QuiltSeg Proofs.QuiltRefine Proofs.QuiltViews Proofs.QuiltBlock Proofs.BatchRefine.
+Require Import SF.Prelude SF.PySlice SF.Value SF.Quilt SF.BatchView Proofs.QuiltSeg Proofs.QuiltRefine Proofs.QuiltViews Proofs.QuiltBlock Proofs.BatchRefine Gen.Gen_c19 Proofs.BatchForward.
 
 (* Quilt._extract (Boolean mask over the axis map, one mask-selected part per addressed member, parts
    concatenated) returns, for EVERY Bus layout (any number of non-empty members of any sizes), both label modes, any opposite-axis key and every order-preserving non-empty key
@@ -116,3 +116,22 @@ Theorem C19_batch_export : forall (axis : Z) (name : val) (stages : list (stage 
   M_to_frame axis name stages items = S_to_frame axis name stages items.
 Proof. exact batch_export. Qed.
 Print Assumptions C19_batch_export.
+
+(* Dispatch facts re-read from the source on every run (Gen/Gen_c19.v): every forwarding Batch method calls the member
+   attribute of its own name and hands each keyword argument on unchanged (so "the operation on the Batch" is "that
+   operation on each Frame", the `composable` decision of reductions included) ... *)
+Theorem C19_batch_forwarding_identity : forallb forwards_identically batch_forward = true.
+Proof. exact batch_forwarding_identity. Qed.
+Print Assumptions C19_batch_forwarding_identity.
+
+Theorem C19_batch_reductions_forward_composable :
+  existsb (fun e => String.eqb (fst (fst e)) "_ufunc_axis_skipna" && existsb (fun kv => String.eqb (fst kv) "composable") (snd e)) batch_forward = true.
+Proof. exact batch_reductions_forward_composable. Qed.
+Print Assumptions C19_batch_reductions_forward_composable.
+
+(* ... and Quilt._extract_array joins its parts only with the dtype-resolving concat_resolved. *)
+Theorem C19_quilt_array_joins_resolved :
+  forallb (fun f => String.eqb f "concat_resolved" || String.eqb f "extractor") quilt_array_returns = true /\
+  existsb (String.eqb "concat_resolved") quilt_array_returns = true.
+Proof. exact quilt_array_joins_resolved. Qed.
+Print Assumptions C19_quilt_array_joins_resolved.
